@@ -536,6 +536,9 @@ impl Optimizer {
     ) -> Predicate {
         let mut sorted_keys = right_keys.to_vec();
         sorted_keys.sort_unstable();
+        // `excluding_indices` removes a *set* of positions: a key listed twice (two left
+        // columns joined with the same right column) is still one excluded column
+        sorted_keys.dedup();
         Self::map_predicate_columns(predicate, &|col: usize| -> usize {
             let mut actual_right_idx = col - left_width;
             for &key_idx in &sorted_keys {
@@ -1170,6 +1173,9 @@ impl Optimizer {
         // right_keys are the indices that were excluded from the Join output
         let mut sorted_keys = right_keys.to_vec();
         sorted_keys.sort_unstable();
+        // `excluding_indices` removes a *set* of positions: a key listed twice (two left
+        // columns joined with the same right column) is still one excluded column
+        sorted_keys.dedup();
 
         projection
             .iter()
